@@ -415,7 +415,116 @@ class RefZ3Domain:
 
 
 def emb(v):
+    if isinstance(v, QZ):
+        return v.term()
     return v.emb() if isinstance(v, RZ) else v
+
+
+class QZ:
+    """rational function n/d over z3 terms (d None = 1).  Keeps symbolic division out of the terms so that
+    identities needing cancellation (x/DT*DT) become polynomial identities after cross-multiplication."""
+    __slots__ = ('n', 'd')
+
+    def __init__(self, n, d=None):
+        self.n = n
+        self.d = d
+
+    @staticmethod
+    def lift(o):
+        if isinstance(o, QZ):
+            return o
+        if isinstance(o, RZ):
+            return QZ(o.emb())
+        return QZ(o)
+
+    def term(self):
+        return self.n if self.d is None else self.n / self.d
+
+    def __add__(self, o):
+        o = QZ.lift(o)
+        if self.d is None and o.d is None:
+            return QZ(self.n + o.n)
+        if self.d is not None and o.d is not None and self.d.eq(o.d):
+            return QZ(self.n + o.n, self.d)
+        sd = self.d if self.d is not None else 1
+        od = o.d if o.d is not None else 1
+        return QZ(self.n * od + o.n * sd, sd * od if (self.d is not None and o.d is not None) else (self.d if self.d is not None else o.d))
+
+    __radd__ = __add__
+
+    def __neg__(self):
+        return QZ(-self.n, self.d)
+
+    def __sub__(self, o):
+        return self + (-QZ.lift(o))
+
+    def __rsub__(self, o):
+        return QZ.lift(o) + (-self)
+
+    def __mul__(self, o):
+        o = QZ.lift(o)
+        d = self.d if o.d is None else (o.d if self.d is None else self.d * o.d)
+        return QZ(self.n * o.n, d)
+
+    __rmul__ = __mul__
+
+    def __truediv__(self, o):
+        o = QZ.lift(o)
+        import z3
+        if o.d is None and z3.is_rational_value(o.n):
+            return QZ(self.n / o.n, self.d)
+        # (n1/d1)/(n2/d2) = n1 d2 / (d1 n2)
+        n = self.n if o.d is None else self.n * o.d
+        d = o.n if self.d is None else self.d * o.n
+        return QZ(n, d)
+
+    def __rtruediv__(self, o):
+        return QZ.lift(o) / self
+
+
+class FracZ3Domain:
+    """z3 domain whose values are QZ rational functions (division by non-constants kept symbolic)"""
+    name = 'z3frac'
+
+    def __init__(self, zdom):
+        self.zdom = zdom
+        self.z3 = zdom.z3
+
+    def const(self, c):
+        return QZ(self.zdom.const(c))
+
+    def nan(self):
+        return QZ(self.zdom.nan())
+
+    def nl1(self, a):
+        return QZ(self.zdom.nl1(QZ.lift(a).term()))
+
+    def nl2(self, a, b):
+        return QZ(self.zdom.nl2(QZ.lift(a).term(), QZ.lift(b).term()))
+
+    def div(self, a, b):
+        return QZ.lift(a) / b
+
+    def ite(self, c, a, b):
+        return QZ(self.z3.If(c, QZ.lift(a).term(), QZ.lift(b).term()))
+
+    def lt(self, a, b):
+        return QZ.lift(a).term() < QZ.lift(b).term()
+
+    def le(self, a, b):
+        return QZ.lift(a).term() <= QZ.lift(b).term()
+
+    def eq(self, a, b):
+        return QZ.lift(a).term() == QZ.lift(b).term()
+
+    def b2r(self, c):
+        return QZ(self.zdom.b2r(c))
+
+    def floor(self, a):
+        return QZ(self.zdom.floor(QZ.lift(a).term()))
+
+    def sqrt(self, a):
+        raise Unsupported('sqrt')
 
 
 def POLY1(a):
